@@ -1175,6 +1175,68 @@ func propC07Ranges(c *Ctx) {
 			}
 			n++
 			ok := len(lowOK) > 0 && len(highOK) > 0 && reg.Guarded(in, lowOK) && reg.Guarded(in, highOK)
+			if !ok {
+				// two passes over the same list: a first loop tests every element and returns on the first one out
+				// of range; the attach step runs in a second loop over that list after the first has finished
+				var los, his []*ssa.BinOp
+				allInstrs(g, func(x ssa.Instruction) {
+					b, isB := x.(*ssa.BinOp)
+					if !isB || !isBlockNum(b.X) {
+						return
+					}
+					if b.Op == token.LSS && is(b.Y, pStart) {
+						los = append(los, b)
+					}
+					if (b.Op == token.GEQ || b.Op == token.GTR) && isUpper(b.Y) {
+						his = append(his, b)
+					}
+				})
+				listOf := func(v ssa.Value) ssa.Value {
+					root, _ := fieldChain(stripNum(v))
+					if s, idx, isE := elemOf(root); isE && isInduction(idx) {
+						return stripConv(s)
+					}
+					return nil
+				}
+				passOK := func(b *ssa.BinOp) (ssa.Value, bool) {
+					every, found := passesEveryCompletedIteration(b)
+					if !found || !every {
+						return nil, false
+					}
+					// out of range leaves the function: it never comes back to this test
+					t, _ := boolEdges(b)
+					for _, e := range t {
+						if again, _ := reach(Site{e.To, -1}, isInstr(b), nil); again {
+							return nil, false
+						}
+					}
+					// the attach step comes after the loop and is not part of it
+					if back, _ := reach(siteOf(in), isInstr(b), nil); back {
+						return nil, false
+					}
+					if fwd, _ := reach(siteOf(b), isInstr(in), nil); !fwd || !b.Block().Dominates(in.Block()) && !loopHeaderDominates(b, in) {
+						return nil, false
+					}
+					return listOf(b.X), len(t) > 0
+				}
+				for _, lo := range los {
+					for _, hi := range his {
+						l1, ok1 := passOK(lo)
+						l2, ok2 := passOK(hi)
+						if !ok1 || !ok2 || l1 == nil || l1 != l2 {
+							continue
+						}
+						for _, col := range loopCollections(in) {
+							if stripConv(col) == l1 || sameVar(col, l1) {
+								ok = true
+							}
+							if arg, isLen := lenArg(col); isLen && (stripConv(arg) == l1 || sameVar(arg, l1)) {
+								ok = true
+							}
+						}
+					}
+				}
+			}
 			c.Check("R7.5", fmt.Sprintf("%s/range-test-before-attach#%d", fnName(fn), n), instrPos(in), ok, spec.attDesc+" happens only for block numbers tested against [start, start+limit]")
 		})
 	}
@@ -1287,4 +1349,23 @@ func lookupMethodOK(h *ssa.Function) bool {
 	good = good && nTrue > 0
 	lookupMethodMemo[h] = good
 	return good
+}
+
+// loopHeaderDominates: the header of the counted loop around a dominates b's block (b comes after
+// or inside the loop that a is part of).
+func loopHeaderDominates(a, b ssa.Instruction) bool {
+	for d := a.Block(); d != nil; d = d.Idom() {
+		iff, ok := terminator(d).(*ssa.If)
+		if !ok {
+			continue
+		}
+		bo, ok := iff.Cond.(*ssa.BinOp)
+		if !ok || bo.Op != token.LSS || !isInduction(bo.X) {
+			continue
+		}
+		if back, _ := reach(siteOf(a), isInstr(iff), nil); back {
+			return d.Dominates(b.Block())
+		}
+	}
+	return false
 }
